@@ -194,7 +194,10 @@ func runSendBatch(c *hx.Ctx) {
 	// ---- corpus -----------------------------------------------------------------------------------
 	corpus := []sbScenario{
 		with(func(s *sbScenario) { s.ops = cat(flush, flush) }),
-		with(func(s *sbScenario) { s.ops = cat(commits(3, 100, 0), flush, commits(2, 100, 1), flush); s.script = []udp.VerifWBOutcome{full, full} }),
+		with(func(s *sbScenario) {
+			s.ops = cat(commits(3, 100, 0), flush, commits(2, 100, 1), flush)
+			s.script = []udp.VerifWBOutcome{full, full}
+		}),
 		// partial success, then zero progress with a nil error: Flush returns an error after the kernel took part of
 		// the batch; the next round must not hand those datagrams over again
 		with(func(s *sbScenario) {
